@@ -96,6 +96,8 @@ def _own_writes(run, prog):
             for mname, fn in k.methods.items():
                 if mname in ("__init__", "update") or mname in HOOKS or "." in mname or prog.find_method(cls, mname)[1] is not fn:
                     continue
+                if mname.startswith("_") and not mname.startswith("__"):
+                    continue                    # a private helper is judged through the public methods that call it
                 if not any(isinstance(x, ast.Attribute) and isinstance(x.ctx, ast.Store) for x in ast.walk(fn)):
                     continue
                 try:
@@ -116,23 +118,28 @@ def _own_writes(run, prog):
     methods = {id(f) for c in prog.all_classes() for f in c.methods.values()
                if not any(ast.unparse(d) == "staticmethod" for d in f.decorator_list)}
     for m in prog.modules.values():
-        for fn in ast.walk(m.tree):
-            if not isinstance(fn, ast.FunctionDef):
+        parents = {}
+        for node in ast.walk(m.tree):
+            for ch in ast.iter_child_nodes(node):
+                parents[ch] = node
+        for x in ast.walk(m.tree):
+            if not (isinstance(x, ast.Attribute) and isinstance(x.ctx, ast.Store) and x.attr in names and
+                    isinstance(x.value, (ast.Name, ast.Subscript, ast.Attribute))):
                 continue
-            me = fn.args.args[0].arg if fn.args.args and id(fn) in methods else None
-            for x in ast.walk(fn):
-                if isinstance(x, ast.Attribute) and isinstance(x.ctx, ast.Store) and x.attr in names and \
-                        not (isinstance(x.value, ast.Name) and x.value.id == me) and \
-                        isinstance(x.value, (ast.Name, ast.Subscript, ast.Attribute)):
-                    # an object other than self: is it plausibly a tracker?  (clone.N = ... inside a copy hook is the tracker's own business)
-                    if fn.name in HOOKS:
-                        continue
-                    n += 1
-                    run.fail("COUNT", f"external-write:{m.name}.{fn.name}", f"{m.path}:{x.lineno}", f"{m.name}.{fn.name}",
-                             f"{ast.unparse(x)} assigned outside the tracker",
-                             f"`{ast.unparse(x)}` is assigned by {fn.name} in {m.name}: a tracker's {x.attr} changes without its "
-                             f"update() running, so its update count and its value no longer belong to the same number of "
-                             f"observations")
+            fn = parents.get(x)
+            while fn is not None and not isinstance(fn, ast.FunctionDef):
+                fn = parents.get(fn)
+            if fn is None or fn.name in HOOKS:
+                continue                # class / module level, or a copy hook filling the object it builds
+            me = fn.args.args[0].arg if fn.args.args and (id(fn) in methods or fn.args.args[0].arg == "self") else None
+            if isinstance(x.value, ast.Name) and x.value.id == me:
+                continue
+            n += 1
+            run.fail("COUNT", f"external-write:{m.name}.{fn.name}", f"{m.path}:{x.lineno}", f"{m.name}.{fn.name}",
+                     f"{ast.unparse(x)} assigned outside the tracker",
+                     f"`{ast.unparse(x)}` is assigned by {fn.name} in {m.name}: a tracker's {x.attr} changes without its "
+                     f"update() running, so its update count and its value no longer belong to the same number of "
+                     f"observations")
     if not n:
         run.ok("COUNT", "own-writes", "tracker state is assigned only by the tracker's constructor and update, all parts together")
 
